@@ -46,7 +46,7 @@ LEVEL_TEXT = {
     "C07": {
         "text": "The real compilers (CDB, RocksDB builder and RocksDB batches) run inside the simulator with their scanner, parser workers, collector and batch writers scheduled by the seeded scheduler, over generated files covering all textual record types, under seeded compiler settings and a seeded input-stream behaviour (short reads, error at an offset). The full dump of the product is compared with the multiset the line-by-line codec emits sequentially; failing inputs must fail for every setting; termination is checked as absence of a quiescent state with unfinished tasks. Big files (several builder buckets) run free on real cores with perturbation hooks in the thorough tier. Evidence, not proof.",
         "design_ref": "§5.3",
-        "note": "The reference shares the per-line codec with the code under test by design (the property is stated relative to it). Which blocked worker receives a line is the Go runtime's choice, so replay is verdict-level. No seam reaches the RDB that rdb.Compile creates, so RocksDB call errors are not injected here. One genuine defect found and fixed (BatchNumParallel = 0 deadlock).",
+        "note": "The reference shares the per-line codec with the code under test by design (the property is stated relative to it). Which blocked worker receives a line is the Go runtime's choice, so replay is verdict-level. RocksDB call errors are injected through the verif-only seam rdb.VerifSetCompileWrap (may fail, never wrong data). One genuine defect found and fixed (BatchNumParallel = 0 deadlock).",
         "technique": "deterministic simulation: seeded scheduling of the compiler's goroutines + seeded input stream faults, full-dump equality against the sequential codec, quiescence = deadlock",
     },
     "C15": {
